@@ -48,10 +48,12 @@ def render_ff(case):
             sep = case.get("tok_sep", " ")      # blanks or tabs between the name and the arguments (the step pattern takes both)
             text = sep.join(step).upper() if case.get("upper", True) else sep.join(step)
             num = str(i).rjust(case["width"])
+            # blanks before the line end on some step lines (planner output padded to a column)
+            tail = case.get("step_tail", "") if (i + case.get("tail_phase", 0)) % 2 == 0 else ""
             if i == 0:
-                lines.append(f"step {num}: {text}")
+                lines.append(f"step {num}: {text}{tail}")
             else:
-                lines.append(" " * case["indent"] + f"{num}: {text}")
+                lines.append(" " * case["indent"] + f"{num}: {text}{tail}")
         if not case["plan"]:
             lines.append("step")
     elif case["status"] != "none":
@@ -157,10 +159,21 @@ def check_case(case):
     res.classes = ["ff:" + ("plan" if has_plan else "no-plan") + (":word-trailer" if word_trailer else "") +
                    (":crlf" if case["eol"] == "\r\n" else "")]
     info = {"text": text[-1500:], "steps": len(exp)}
-    ok, got = lib_call(MetricFFParser().get_solving_status, Path(p))
+    parser = MetricFFParser()
+    earlier = None
+    if case.get("reuse_parser"):
+        # the same parser object read another log before: what it returned then stays what it was
+        pd = write_tmp("ff: found legal plan as follows\n\nstep    0: EARLIER-FIRST X\n        1: EARLIER-SECOND Y Z\n\ntime spent:    0.00 seconds total time\n",
+                       suffix=".out", newline="")
+        oke, earlier = lib_call(parser.get_solving_status, Path(pd))
+        if not oke:
+            earlier = None
+    ok, got = lib_call(parser.get_solving_status, Path(p))
     if not ok:
         res.bad(f"C19/ff/exception:{got.key}", {**info, "error": repr(got)})
         return res
+    if earlier is not None and (earlier[0] != "ok" or read_lines(earlier[1]) != [["earlier-first", "x"], ["earlier-second", "y", "z"]]):
+        res.bad("C19/ff/earlier-result-changed-by-a-later-call", {**info, "earlier": [earlier[0], list(earlier[1])[:4]]})
     status, actions = got
     if has_plan:
         want = "ok"
@@ -223,7 +236,19 @@ def gen(ch, tier):
             "header": [ch.choice(HEADERS) for _ in range(ch.int(0, 8))],
             "trailer": [ch.choice(TRAILERS) for _ in range(ch.int(0, 5))],
             "width": width, "indent": ch.int(0, 10), "eol": ch.choice(["\n", "\n", "\r\n"]), "upper": ch.flag(0.8),
-            "reuse_path": ch.flag(0.4), "tok_sep": ch.weighted([(6, " "), (2, "\t"), (1, "  "), (1, " \t")])}
+            "reuse_path": ch.flag(0.4), "tok_sep": ch.weighted([(6, " "), (2, "\t"), (1, "  "), (1, " \t")]),
+            **side_features(ch)}
+
+
+def side_features(ch):
+    side = ch.side("ff-extras")
+    out = {}
+    if side.flag(0.3):
+        out["step_tail"] = side.choice([" ", "  ", "\t", " \t "])
+        out["tail_phase"] = side.int(0, 1)
+    if side.flag(0.3):
+        out["reuse_parser"] = True
+    return out
 
 
 def corpus():
